@@ -937,7 +937,7 @@ pub fn all() -> Vec<Box<dyn Check>> {
     Box::new(MixCheck {
         id: "C04",
         level: "exploration",
-        rule: concat!("the reference broker originates bursts of PUBLISH packets (all QoS, identifiers incl. 1/255/256/65535, random property sets, payloads up to the receive buffer, retain/DUP), retransmissions of unreleased QoS 2 identifiers, PUBRELs for known and unknown ids, interleaved with client traffic, small transmit arenas kept full by withheld acks, reconnects between PUBLISH and PUBREL; a 40-line reference receiver predicts deliveries and the exact acknowledgement sequence. Non-trivial iff a duplicate was suppressed, an ack was owed with a full arena, or >=3 QoS 2 ids were pending. The hostile workload (broker exceeding limits/reusing ids) is judged only for: no panic, acks carry ids that were received.", " Scripted workload `full-table-redelivery`: seven or eight inbound QoS 2 exchanges open (PUBRELs withheld), the connection lost before the PUBREC of the last one was written, the broker redelivers it on the resumed (or fresh) connection."),
+        rule: concat!("the reference broker originates bursts of PUBLISH packets (all QoS, identifiers incl. 1/255/256/65535, random property sets, payloads up to the receive buffer, retain/DUP), retransmissions of unreleased QoS 2 identifiers, PUBRELs for known and unknown ids, interleaved with client traffic, small transmit arenas kept full by withheld acks, reconnects between PUBLISH and PUBREL; a 40-line reference receiver predicts deliveries and the exact acknowledgement sequence; a call that reports WriteZero although every write that was offered a byte took one, while acknowledgements are owed, is a violation. Non-trivial iff a duplicate was suppressed, an ack was owed with a full arena, or >=3 QoS 2 ids were pending. The hostile workload (broker exceeding limits/reusing ids) is judged only for: no panic, acks carry ids that were received.", " Scripted workload `full-table-redelivery`: seven or eight inbound QoS 2 exchanges open (PUBRELs withheld), the connection lost before the PUBREC of the last one was written, the broker redelivers it on the resumed (or fresh) connection."),
         assumptions: COMMON_ASSUME.to_vec(),
         workloads: vec![("inbound-heavy", 5000, 2_000_000, Source::Gen(inbound_heavy)), ("inbound-hostile", 1000, 400_000, Source::Gen(inbound_hostile)), ("general", 1000, 400_000, Source::Gen(general)), ("full-table-redelivery", 300, 30_000, Source::Script(crate::scripts::c04_script))],
         monitor: m::c04::check,
@@ -1055,7 +1055,7 @@ pub fn all() -> Vec<Box<dyn Check>> {
     Box::new(SweepCheck {
         id: "C16",
         level: "fault_enumeration",
-        rule: "liveness restated as bounded progress: the end state of every explored history (random programs re-executed with a transport fault at every I/O call index and a cancellation at every await index; saturated queues, crashes in the middle of a replay) is continued benignly (reconnect with the session present if the client asks for it, whole-buffer transport, broker acknowledging everything at once; one continuation in three announces the smallest Maximum Packet Size - at least 5 - under which every packet the session still holds fits, the others no limits) and poll() is called until the client goes idle; it must do so within N = 208 + 8 x inbound backlog calls, be publish-quiescent with every non-invalidated handle complete and no owed control packet left, never exceed the per-call watchdog budget (4096 transport calls), and poll() may return Ok(None) only after a byte moved or a flush completed. Non-trivial iff the continuation started with queued entries or after a failed operation; distinct keys = end-state shapes (retained/release/control/inbound-QoS2 counts).",
+        rule: "liveness restated as bounded progress: the end state of every explored history (random programs re-executed with a transport fault at every I/O call index and a cancellation at every await index; saturated queues, crashes in the middle of a replay) is continued benignly (reconnect with the session present if the client asks for it, whole-buffer transport, broker acknowledging everything at once; one continuation in three announces the smallest Maximum Packet Size - at least 5 - under which every packet the session still holds fits, the others no limits) and poll() is called until the client goes idle; it must do so within N = 208 + 8 x inbound backlog calls, be publish-quiescent with every non-invalidated handle complete and no owed control packet left, never exceed the per-call watchdog budget (4096 transport calls), and poll() may return Ok(None) only after a byte moved or a flush completed. Every other continuation begins on the connection the history ended on, if that is still up: planned faults, stalls and delays are dropped, withheld acknowledgements go out, the application polls there up to twelve times and only then drops the handle and reconnects as above; on that stretch poll() must never answer InflightExhausted nor WriteZero when every write that was offered a byte took one (what may legitimately end that connection - a parked DISCONNECT, an unanswered PINGREQ, an owed packet above the limit, bytes that are not MQTT - is counted, not judged). Scripted workload probe-due-on-a-full-send-buffer: a PINGREQ falls due while the transport accepts nothing and the wait is given up 1..12 times in a row. Non-trivial iff the continuation started with queued entries or after a failed operation; distinct keys = end-state shapes (retained/release/control/inbound-QoS2 counts).",
         assumptions: COMMON_ASSUME.to_vec(),
         workloads: vec![("replay-heavy", 150, 15_000, replay_heavy as ProfileFn), ("inbound-heavy", 100, 10_000, inbound_heavy), ("general", 100, 10_000, general), ("keepalive-mix", 100, 10_000, keepalive_mix)],
         monitor: m::c16::check,
